@@ -1,4 +1,5 @@
 import GrmVerif.Model.Canon
+import GrmVerif.Model.CertVP
 import GrmVerif.Drive.C01
 /-!
 Driver for C02. Request as for C01 (`<grammar> <automaton> ninputs (len tok…)* ninputs×accepted`).
@@ -31,7 +32,8 @@ def handle (args : List Nat) : String :=
       | some (Ac, cf) =>
         if !cf then s!"V ok\nC not_lr1 1\nC canonical_states {Ac.nstates}"
         else
-          let bad := Cert.failing P.G Ac ++ Cert.failingLA P.G Ac N F
+          let bad := Cert.failing P.G Ac ++ Cert.failingLA P.G Ac N F ++
+            (if Cert.allProductive P.G then Cert.failingVP P.G Ac else [])
           if !bad.isEmpty then s!"V ok\nC canonical_not_certified 1\nX clauses={bad}"
           else
             -- the grammar is LR(1), witnessed by a certified conflict-free automaton
@@ -39,7 +41,10 @@ def handle (args : List Nat) : String :=
               [s!"V fail conflicts-reported-for-an-LR1-grammar sr={P.A.sr.length} rr={P.A.rr.length}"]
             let v2 := if P.A.nstates ≤ Ac.nstates then [] else
               [s!"V fail more-states-than-canonical impl={P.A.nstates} canonical={Ac.nstates}"]
-            let badI := Cert.failing P.G P.A ++ Cert.failingLA P.G P.A N F
+            -- the viable-prefix part applies to grammars whose rules are all productive
+            let prod := Cert.allProductive P.G
+            let badI := Cert.failing P.G P.A ++ Cert.failingLA P.G P.A N F ++
+              (if prod then Cert.failingVP P.G P.A else [])
             let v3 := if badI.isEmpty then [] else [s!"V fail minimised-automaton-not-certified clauses={badI}"]
             let ss := (List.range P.inputs.length).map (fun k =>
               let w := P.inputs.getD k []
@@ -47,6 +52,7 @@ def handle (args : List Nat) : String :=
             let vs := v1 ++ v2 ++ v3
             "\n".intercalate ((if vs.isEmpty then ["V ok"] else vs) ++ ss ++
               [s!"C lr1 1", s!"C canonical_states {Ac.nstates}", s!"C impl_states {P.A.nstates}",
-               s!"C merged {if P.A.nstates < Ac.nstates then 1 else 0}"])
+               s!"C merged {if P.A.nstates < Ac.nstates then 1 else 0}",
+               s!"C all_rules_productive {if prod then 1 else 0}"])
 
 end GrmVerif.Drive.C02
